@@ -35,7 +35,7 @@ Definition chk_final (g : gstate) (f : fobs) : bool :=
   && Nat.eqb (length dat) (length (filter (fun c => ctype_eqb (snd c) CRun) (colls g)))
   && forallb (fun e => seteq path_eqb (tag_data g (fst e)) (snd e)) tg
   && Nat.eqb (length tg) (length (filter (fun c => ctype_eqb (snd c) CTagged) (colls g)))
-  && seteq (fun a b => (fst a =? fst b) && (snd a =? snd b)) (dtypes g) dts
+  && seteq (fun a b => (fst a =? fst b) && (N.modulo (snd a) 2 =? N.modulo (snd b) 2)) (dtypes g) dts   (* observed: name + storage class *)
   && seteq path_eqb (map fst (files g)) fl
   && (N.of_nat (length (trashl g)) =? tr) && (N.of_nat (length (recs g)) =? nr) && (N.of_nat (length (loc g)) =? nl).
 
